@@ -53,3 +53,38 @@ Proof.
   intros H Hr. injection H as <-. cbn [o_bytes o_log] in *.
   rewrite (lok l). exact (buffer_output_ok _ Hr).
 Qed.
+
+(* ---------- content: the text of an output is the text of its writes ---------- *)
+From Redact Require Import BufContent BufContentP.
+
+Lemma finish_output {A} (r : res A * pst) (o : outp) :
+  finish r = ROk o -> exists ops, o_log o = ops ++ [OTake] /\ o_bytes o = output ops.
+Proof.
+  intros H. destruct (finish_spec r o H) as (ops & Hl & Hs). exists ops. split; [exact Hl|].
+  cbn [step] in Hs. unfold take in Hs. cbn [snd] in Hs. injection Hs as Hs. symmetry. exact Hs.
+Qed.
+
+(* Whatever the evaluator did: with markers stripped the returned bytes are the
+   payloads of the Buffer writes it made, in order, with markers replaced; with
+   envelopes deleted they are the payloads written in safe mode plus the line
+   feeds of those written in unsafe mode.  (Mode switches add or remove marker
+   bytes only.) *)
+Theorem finish_content {A} (r : res A * pst) (o : outp) :
+  finish r = ROk o ->
+  exists ops, o_log o = ops ++ [OTake] /\
+    (rawok ops = true -> content_ok ops = true ->
+     strip_tok (lex (o_bytes o)) = spec_strip ops /\ del_env (lex (o_bytes o)) = spec_safe ops).
+Proof.
+  intros H. destruct (finish_output r o H) as (ops & Hl & Hb). exists ops. split; [exact Hl|].
+  intros Hr Hc. rewrite Hb. now apply output_content.
+Qed.
+
+Theorem builder_content fuel env acts o :
+  builder fuel env acts = ROk o ->
+  rawok (o_log o) = true -> content_ok (o_log o) = true ->
+  strip_tok (lex (o_bytes o)) = spec_strip (o_log o) /\ del_env (lex (o_bytes o)) = spec_safe (o_log o).
+Proof.
+  unfold builder. destruct (builder_run fuel env l_init acts) as [l|v| |w]; cbn [res_bind]; try discriminate.
+  intros H Hr Hc. injection H as <-. cbn [o_bytes o_log] in *.
+  rewrite (lok l). now apply output_content.
+Qed.
